@@ -4,6 +4,7 @@ package sim
 // C07 M3 (retention of a failed replica set) rides along on the same delete calls.
 
 import (
+	"strings"
 	"encoding/json"
 	"time"
 
@@ -82,7 +83,8 @@ func (m *monC13) PostCall(s *Sim, c *Call) {
 		if p.Annotations[hashKey] != v.ERS.Annotations[hashKey] || p.Annotations[hashKey] != v.ERS.Spec.TemplateGeneration {
 			s.Violate("C13", "pod-hash", "", "%s stamps hash %q on a pod, its replica set records %q/%q", t.Label(), p.Annotations[hashKey], v.ERS.Annotations[hashKey], v.ERS.Spec.TemplateGeneration)
 		}
-		if letterOfPod(p) != letterOfTpl(&v.ERS.Spec.Template) {
+		// (the image decides: a resource override may replace the requests, spelling included)
+		if strings.TrimSuffix(letterOfPod(p), "~") != strings.TrimSuffix(letterOfTpl(&v.ERS.Spec.Template), "~") {
 			s.Violate("C13", "pod-template", "", "%s creates a pod of template %s from a replica set of template %s", t.Label(), letterOfPod(p), letterOfTpl(&v.ERS.Spec.Template))
 		}
 	}
